@@ -311,6 +311,7 @@ type c08Config struct {
 	schedule []c08FeeEntry
 	floor    sdk.Coin
 	perMil   uint64
+	shared   int // when > 0: the recipient that several fee sources of this configuration name (not part of the Coq term)
 }
 
 func (c *c08Config) term() string {
@@ -356,8 +357,17 @@ func c08GenConfig(r *rand.Rand) *c08Config {
 		c.floor = sdk.NewInt64Coin(c08Denoms[0], int64(1+r.Intn(5)))
 	}
 	c.perMil = []uint64{1, 7, 25, 1000}[r.Intn(4)]
+	// in half of the configurations several message types (and custom assessed fees) pay the SAME
+	// recipient, so that one transaction accumulates shares for one address from different sources
+	if r.Intn(2) == 0 {
+		c.shared = 1 + r.Intn(c08NAcc)
+	}
+	present := 55
+	if c.shared > 0 {
+		present = 80
+	}
 	for _, k := range []int{c08Send, c08Exec, c08Assess} {
-		if r.Intn(100) >= 55 {
+		if r.Intn(100) >= present {
 			continue
 		}
 		e := c08FeeEntry{kind: k}
@@ -366,7 +376,13 @@ func c08GenConfig(r *rand.Rand) *c08Config {
 			amt = 0
 		}
 		e.coin = sdk.NewInt64Coin(c08Denoms[r.Intn(2)], amt)
-		if r.Intn(2) == 0 {
+		if c.shared > 0 && r.Intn(5) != 0 {
+			e.recipient = c.shared
+			e.bips = []uint32{1, 2500, 3333, 5000, 9999, 10000}[r.Intn(6)]
+			if r.Intn(3) == 0 {
+				e.bips = uint32(1 + r.Intn(10000))
+			}
+		} else if r.Intn(2) == 0 {
 			e.recipient = 1 + r.Intn(c08NAcc)
 			if r.Intn(3) == 0 {
 				e.bips = uint32(r.Intn(10001))
@@ -477,6 +493,43 @@ func c08Required(c *c08Config, msgs []c08Msg, nested bool) sdk.Coins {
 	return req
 }
 
+// c08SameRecipientSources is the largest number of DIFFERENT fee sources (message-type fees by type,
+// custom assessed fees) with a positive recipient share that name one and the same recipient in the
+// transaction's message tree.
+func c08SameRecipientSources(c *c08Config, msgs []c08Msg) int {
+	src := map[int]map[string]bool{}
+	add := func(rc int, key string) {
+		if src[rc] == nil {
+			src[rc] = map[string]bool{}
+		}
+		src[rc][key] = true
+	}
+	var walk func(m c08Msg)
+	walk = func(m c08Msg) {
+		for _, e := range c.schedule {
+			if e.kind == m.kind && e.coin.IsPositive() && e.recipient > 0 && e.bips > 0 {
+				add(e.recipient, fmt.Sprintf("type%d", e.kind))
+			}
+		}
+		if m.kind == c08Assess && m.recipient > 0 && m.bips != "0" && m.amount.Denom != c08Denoms[1] {
+			add(m.recipient, "custom")
+		}
+		for _, x := range m.inner {
+			walk(x)
+		}
+	}
+	for _, m := range msgs {
+		walk(m)
+	}
+	best := 0
+	for _, v := range src {
+		if len(v) > best {
+			best = len(v)
+		}
+	}
+	return best
+}
+
 type c08Tx struct {
 	fee     sdk.Coins
 	gas     uint64
@@ -550,8 +603,9 @@ func (t *c08Tx) term(n *c08Net, gasOut string) string {
 // ---------- generator ----------
 
 type c08Gen struct {
-	r *rand.Rand
-	n *c08Net
+	r   *rand.Rand
+	n   *c08Net
+	cfg *c08Config // configuration of the transaction being generated
 }
 
 func (g *c08Gen) otherThan(x int) int {
@@ -598,7 +652,21 @@ func (g *c08Gen) genAssess(from int) c08Msg {
 	default:
 		m.amount = sdk.NewInt64Coin(c08Denoms[0], amt)
 	}
-	if r.Intn(3) != 0 {
+	if g.cfg != nil && g.cfg.shared > 0 && r.Intn(4) != 0 {
+		// the custom fee names the recipient the message-type fees of this configuration name
+		m.recipient = g.cfg.shared
+		if m.amount.Denom == c08Denoms[1] {
+			m.amount = sdk.NewInt64Coin(c08Denoms[0], amt)
+		}
+		switch r.Intn(3) {
+		case 0:
+			m.bips = ""
+		case 1:
+			m.bips = strconv.Itoa(1 + r.Intn(10000))
+		default:
+			m.bips = strconv.Itoa(int([]uint32{1, 2500, 3333, 5000, 9999, 10000}[r.Intn(6)]))
+		}
+	} else if r.Intn(3) != 0 {
 		m.recipient = 1 + r.Intn(c08NAcc)
 		switch r.Intn(4) {
 		case 0:
@@ -659,7 +727,7 @@ type c08Plan struct {
 		g, p int
 		a    c08Allow
 	}
-	feeMode, balMode, grantMode, gasMode string
+	feeMode, balMode, grantMode, gasMode, bodyMode string
 }
 
 func (g *c08Gen) plan(st *c08State) *c08Plan {
@@ -668,14 +736,40 @@ func (g *c08Gen) plan(st *c08State) *c08Plan {
 	t := &c08Tx{sigOK: true}
 	p.tx = t
 	t.payer = 1 + r.Intn(c08NAcc)
+	g.cfg = p.cfg
 	failShare := 8
-	nm := 1 + r.Intn(3)
-	for i := 0; i < nm; i++ {
-		signer := t.payer
-		if i > 0 && r.Intn(5) == 0 {
-			signer = g.otherThan(t.payer)
+	if p.cfg.shared > 0 && r.Intn(3) != 0 {
+		// 2-3 messages of DIFFERENT fee-bearing types: a send, a custom assessed fee, an exec wrapping either
+		failShare = 3
+		kinds := []int{c08Send, c08Assess, c08Exec}
+		r.Shuffle(len(kinds), func(i, j int) { kinds[i], kinds[j] = kinds[j], kinds[i] })
+		for _, k := range kinds[:2+r.Intn(2)] {
+			switch k {
+			case c08Send:
+				t.msgs = append(t.msgs, c08Msg{kind: c08Send, from: t.payer, to: g.otherThan(t.payer), coins: g.sendCoins(st, t.payer, r.Intn(100) < failShare)})
+			case c08Assess:
+				t.msgs = append(t.msgs, g.genAssess(t.payer))
+			default:
+				m := c08Msg{kind: c08Exec, from: t.payer}
+				if r.Intn(2) == 0 {
+					m.inner = append(m.inner, g.genAssess(t.payer))
+				} else {
+					m.inner = append(m.inner, c08Msg{kind: c08Send, from: t.payer, to: g.otherThan(t.payer), coins: g.sendCoins(st, t.payer, false)})
+				}
+				t.msgs = append(t.msgs, m)
+			}
 		}
-		t.msgs = append(t.msgs, g.genMsg(st, signer, 1, failShare))
+		p.bodyMode = "different-fee-types"
+	} else {
+		nm := 1 + r.Intn(3)
+		for i := 0; i < nm; i++ {
+			signer := t.payer
+			if i > 0 && r.Intn(5) == 0 {
+				signer = g.otherThan(t.payer)
+			}
+			t.msgs = append(t.msgs, g.genMsg(st, signer, 1, failShare))
+		}
+		p.bodyMode = "random"
 	}
 	t.signers = c08Signers(t.msgs)
 	if r.Intn(40) == 0 {
@@ -969,6 +1063,10 @@ func TestC08(t *testing.T) {
 			if hasNested {
 				w.Count("with-nested:" + outcome)
 			}
+			if k := c08SameRecipientSources(p.cfg, p.tx.msgs); k >= 2 {
+				w.Count("same-recipient-from-2+-fee-sources:" + outcome)
+			}
+			w.Count("body:" + p.bodyMode + ":" + outcome)
 			addl := c08Required(p.cfg, p.tx.msgs, true)
 			if !addl.IsZero() {
 				w.Count("with-additional-fee:" + outcome)
